@@ -150,6 +150,11 @@ def run(ctx):
     check_unwraps(ctx, ctx.program("MAX"))
     from .c01_index import check_indexing
     check_indexing(ctx, ctx.program("MAX"))
+    # P17: an instruction operand used as an index fits the table it indexes (generator and interpreter agree)
+    from .c01_operands import check_operand_indices
+    n17 = check_operand_indices(ctx, ctx.program("MAX"))
+    if ctx.program("MAX").has_fn("minijinja::vm::get_or_lookup_local"):
+        ctx.floor("C01.P17 tables indexed by an instruction operand", n17, 1)
     # P10: the interpreter's unsigned counters (`outer_stack_depth -= delta`, `BlockStack::depth.checked_sub(1).unwrap()`)
     # are only decremented after the matching increment succeeded on the same path
     from .pairs import check_closers, C as _C
